@@ -584,6 +584,10 @@ pub fn run(args: &Args) -> i32 {
     if prop != "C23" {
         wide_leg(&run, &prop);
     }
+    if run.quick() {
+        run.put("exhaustive", json!(false));
+        run.put("exhaustive_note", json!("quick tier: every third program of the large families (all programs that repeat a variable inside an atom, all of F3 and F4neg); the thorough tier takes every program"));
+    }
     run.finish()
 }
 
